@@ -14,16 +14,29 @@ Open Scope nat_scope.
 
 REL, ABS = 2e-5, 1e-7
 NEAR = 2e-4           # relative distance to epsilon below which a float32 pruning decision is not judged
-EPS = [0.0, 0.05, 0.2, 0.5]
+EPS = [0.0, 0.05, 0.2, 0.5, 0.25, 1.0]
 
 # ------------------------------------------------------------------ generators
 
+def f32_exact(x):
+    import struct
+    return struct.unpack("f", struct.pack("f", float(x)))[0] == float(x)
+
+
+def eps_fraction(eps):
+    """The threshold as a rational: exactly the given float when float32 represents it (the matrix is float32, so the
+    comparison is then the same in both worlds), else the short decimal it was written as."""
+    return F(float(eps)) if f32_exact(eps) else F(float(eps)).limit_denominator(1000)
+
+
 def gen_fit_case(rng):
     r = rng.random()
-    if r < 0.45:
+    if r < 0.3:
         case = gen_runs_case(rng)
+    elif r < 0.55:
+        case = gen_eps_hit_case(rng)
     else:
-        case = c03.gen_case(rng, rng.choice(["token", "token", "ngram", "timed", "multi"]))
+        case = c03.gen_case_plain(rng, rng.choice(["token", "token", "ngram", "timed", "multi"]))
         # small numbers keep the exact rational model tractable
         kw = case["kw"]
         if case["kind"] in ("token", "ngram"):
@@ -34,8 +47,72 @@ def gen_fit_case(rng):
             case["docs"] = [[ms[:3] for ms in d[:4]] for d in case["docs"][:2]]
         rad = kw["window_radii"]
         kw["window_radii"] = [min(x, 4) for x in rad] if isinstance(rad, list) else min(rad, 4)
-    case["kw"]["n_iter"] = rng.choice([0, 1, 1, 2, 2, 3])
-    case["kw"]["epsilon"] = rng.choice(EPS)
+        c03.apply_boundaries(rng, case)          # radii 0, 1, len-1, len, len+1, beyond int16/int32; offsets >= window
+        case["kw"]["n_iter"] = rng.choice([0, 1, 1, 2, 2, 3])
+        case["kw"]["epsilon"] = rng.choice(EPS)
+    # 40%: the same estimator object was fitted on another corpus before; 25%: a later transform goes through the
+    # same normalise / threshold / iterate pipeline
+    return c03.add_call_history(rng, case, 0.4, 0.25)
+
+
+STAR_PATTERNS = [[1], [1], [3], [1, 1], [1, 1], [2, 2], [2, 1, 1], [2, 1, 1], [1, 1, 1, 1], [3, 1], [4, 2, 1, 1], [1, 1, 2, 4]]
+
+
+def gen_eps_hit_case(rng):
+    """Corpora whose column-normalised values are dyadic and hit epsilon exactly, before and after every EM iteration:
+    disjoint stars -- context token u_k is preceded by the row tokens of pattern k with the given multiplicities, every
+    row token belongs to one star (multiset kind: also as one basket [r, u] per document) -- so each occurrence has a
+    single window slot per block (EM share exactly 1, or 1/2 + 1/2), the column of
+    u_k holds m_j / sum(m) and (in a 'before' block) the column of a row token holds 1.0.  epsilon is one of those
+    values, or the float32 neighbour 2^-20 below / above it."""
+    kind = rng.choice(["token", "token", "timed", "ngram", "multi"])
+    rows_pool = list("abcdefghijkl")
+    rng.shuffle(rows_pool)
+    pairs, values = [], {F(1)}
+    for k in range(rng.choice([1, 1, 2, 3])):
+        pat = rng.choice(STAR_PATTERNS)
+        if len(pat) > len(rows_pool):
+            break
+        rows, rows_pool = rows_pool[:len(pat)], rows_pool[len(pat):]
+        for r, m in zip(rows, pat):
+            pairs += [(r, "u%d" % k)] * m
+            values.add(F(m, sum(pat)))
+    rng.shuffle(pairs)
+    size = 1
+    if kind == "ngram":
+        size = rng.choice([1, 2])
+    if kind == "token" or kind == "ngram":
+        docs = [[r] * size + [u] for r, u in pairs]
+    elif kind == "timed":
+        docs = [[[r, rng.choice([0, 8])], [u, 16 + rng.choice([0, 8, 24])]] for r, u in pairs]
+    elif rng.random() < 0.5:
+        docs = [[[r], [u]] for r, u in pairs]
+    else:
+        # one multiset per document (a basket): the other elements of the own multiset are the contexts (distance 0),
+        # in every orientation; the column of a row token then holds 1.0
+        docs = [[[r, u]] for r, u in pairs]
+    L = 2 + size - 1
+    kw = {"window_radii": rng.choice([1, 1, 2, L, L + 1, 32768, 2 ** 31 - 1]),
+          "window_orientations": rng.choice(["after", "after", "before", "directional"]),
+          "kernel_functions": rng.choice(["flat", "flat", "geometric"]), "normalize_windows": rng.random() < 0.5}
+    if kw["window_radii"] > 1000:
+        kw["coo_initial_memory"] = "64k"
+    if kind == "timed" and rng.random() < 0.8:
+        kw["kernel_functions"] = "flat"          # power**(dt/mean gap) is not exact in floats
+    if kw["kernel_functions"] == "geometric":
+        kw["kernel_args"] = {"power": rng.choice([0.5, 0.25, 1.0])}
+    if rng.random() < 0.3:
+        kw["mix_weights"] = [rng.choice([0.5, 2.0, 1024.0])]
+    if kind == "ngram":
+        kw["ngram_size"] = size
+    hit = rng.choice(sorted(values))
+    r = rng.random()
+    eps = hit if r < 0.6 else (hit - F(1, 2 ** 20) if r < 0.8 else hit + F(1, 2 ** 20))
+    kw["epsilon"] = float(eps)
+    kw["n_iter"] = rng.choice([0, 1, 1, 2, 2, 3])
+    case = {"kind": kind, "kw": kw, "docs": docs, "eps_hit": True}
+    if kind == "timed":
+        case["shift"] = rng.choice([0.0, 1.6e9])
     return case
 
 
@@ -134,13 +211,16 @@ def gen_direct_case(rng):
 
 # ------------------------------------------------------------------ SPEC: the documented procedure, dense, exact
 
-def normalize_threshold(M, eps, near, zero):
+def normalize_threshold(M, eps, near, zero, mon=None):
     sums = {}
     for (r, c), v in M.items():
         sums[c] = sums.get(c, zero) + v
     out = {}
     for (r, c), v in M.items():
         x = v / sums[c] if sums[c] > 0 else v
+        if mon is not None:
+            mon.v32(v)
+            mon.v32(x)
         if eps > 0 and x > 0 and abs(float(x) - float(eps)) <= NEAR * float(eps):
             near.append(((r, c), float(x)))
         if x >= eps and x != 0:
@@ -148,19 +228,21 @@ def normalize_threshold(M, eps, near, zero):
     return out
 
 
-def em_spec(M0, occs, n, n_iter, eps, exact=True):
+def em_spec(M0, occs, n, n_iter, eps, exact=True, mon=None):
     """L1-normalise the columns, zero the entries below eps, then n_iter times: every occurrence distributes one unit
-    of mass over the cells (own row, context column) of its window contexts in proportion to kernel weight x current
+    of mass over the cells (its own row, context column) of its window contexts in proportion to kernel weight x current
     cell value; re-normalise, re-threshold.  Returns (matrix, near-threshold decisions met on the way).
     exact: fractions; otherwise the same dense procedure in float64 (exact rationals explode with 53-bit timed weights
-    or long corpora; float64 is 1e-15 against a 2e-5 comparison)."""
+    or long corpora; float64 is 1e-15 against a 2e-5 comparison).
+    mon (exact mode): c03.Exactness, told every intermediate value (see there)."""
     conv = (lambda x: x) if exact else float
     zero = F(0) if exact else 0.0
     eps = eps if exact else float(eps)
+    mon = mon if exact else None
     near = []
     M = {k: conv(v) for k, v in M0.items()}
     if n_iter > 0 or eps > 0:
-        M = normalize_threshold(M, eps, near, zero)
+        M = normalize_threshold(M, eps, near, zero, mon)
     flat_occs = []
     for row, per_block in occs:
         flat_occs.append([((row, ctx + i * n), conv(w)) for i, blk in enumerate(per_block) for ctx, w in blk.values() if w > 0])
@@ -172,7 +254,10 @@ def em_spec(M0, occs, n, n_iter, eps, exact=True):
             if tot > 0:
                 for cell, v in shares:
                     new[cell] += v / tot
-        M = normalize_threshold(new, eps, near, zero)
+                    if mon is not None:
+                        mon.v64(v)
+                        mon.v32(v / tot)
+        M = normalize_threshold(new, eps, near, zero, mon)
     return M, near
 
 
@@ -203,7 +288,7 @@ def coq_pipeline_expr(p, radii, case):
     kw = case["kw"]
     _, occf, blocks, tail = c03.coq_parts(p, radii)
     events = c03.coq_events(p, radii, bool(kw.get("normalize_windows", True)))
-    eps = F(kw.get("epsilon", 0)).limit_denominator(1000)
+    eps = eps_fraction(kw.get("epsilon", 0))
     return "show_rows (pipeline %d %s %d (%s %s %s) (rows_of_events %d %s))" % (
         int(kw.get("n_iter", 0)), c03.qc(eps), p["n"], occf, blocks, tail, p["n_rows"], events)
 
@@ -224,36 +309,75 @@ def close(a, b, rel=REL, ab=ABS):
     return abs(a - b) <= rel * max(abs(a), abs(b)) + ab
 
 
-def judge_fit(ctx, case, res, model_val, stats):
+def judge_fit(ctx, case, res, model_val, stats, model_then=None):
     p = c03.plan_of(case)
     kw = case["kw"]
-    n_iter, eps = int(kw.get("n_iter", 0)), F(kw.get("epsilon", 0)).limit_denominator(1000)
-    ctx.count_case(case, nontrivial=c03.nontrivial(p), kind="%s:n_iter=%d:eps=%s" % (case["kind"], n_iter, float(eps)))
+    n_iter, eps = int(kw.get("n_iter", 0)), eps_fraction(kw.get("epsilon", 0))
+    ctx.count_case(case, nontrivial=c03.nontrivial(p), kind="%s:n_iter=%d:eps=%s%s%s%s" % (
+        case["kind"], n_iter, round(float(eps), 4), ":eps-hit" if case.get("eps_hit") else "",
+        "+past" if case.get("history") else "", "+then" if case.get("then") else ""))
     if "error" in p:
         stats["degenerate"] += 1
         return None
     if "err" in res:
-        ctx.report("implementation raised %s on a valid input: %s" % (res["err"], res.get("msg", "")),
+        ctx.report("implementation raised %s on a valid input: %s%s" % (res["err"], res.get("msg", ""), c03.past_note(case)),
                    {"stage": "oracle", "case": case, "actual": res})
         return None
     out = res["ok"]
-    radii, _ = c03.expected_radii(p, out["radii"])
-    occs = c03.occurrences(p, radii)
-    if occs is None:
-        stats["undefined"] += 1
+    if case.get("history"):
+        stats["with_past"] += 1
+    radii, problems = c03.expected_radii(p, out["radii"])
+    nv = len(ctx.violations)
+    d = judge_pipeline(ctx, case, p, radii, out["triples"], model_val, stats, "fit_transform")
+    if len(ctx.violations) > nv:
         return None
-    M0 = {}
-    for row, per_block in occs:
-        c03.occ_contrib(M0, p["n"], row, per_block, bool(kw.get("normalize_windows", True)))
-    M0.pop("maxden", None)
-    exact = not (p["kind"] == "timed" and any(b["kind"] != "flat" for b in p["blocks"])) and (
-        n_iter <= 1 or sum(len(t) for t in c03.tokens_of(case)) <= 24)
-    S, near = em_spec(M0, occs, p["n"], n_iter, eps, exact)
-    got = {(r, c): v for r, c, v in out["triples"]}
+    if case.get("then") and "then" in out:
+        got = out["then"]
+        if "err" in got:
+            ctx.report("transform after fit raised %s: %s%s" % (got["err"], got.get("msg", ""), c03.past_note(case)),
+                       {"stage": "oracle", "case": case, "actual": got})
+            return None
+        d2 = judge_pipeline(ctx, case, c03.plan_then(case, p), radii, got["triples"], model_then, stats,
+                            "transform(%s) after fit" % ("X" if case["then"]["docs"] == "same" else "Y"))
+        if len(ctx.violations) > nv:
+            return None
+        stats["then_ok"] += 1
+        d = d or d2
+    if d is None and problems and not p["variable"]:
+        d = "fitted state: " + problems[0] + c03.past_note(case)
+    return d
+
+
+def judge_pipeline(ctx, case, p, radii, triples, model_val, stats, what):
+    """The documented procedure on the corpus of plan p against one matrix of the implementation."""
+    kw = case["kw"]
+    n_iter, eps = int(kw.get("n_iter", 0)), eps_fraction(kw.get("epsilon", 0))
+    note = c03.past_note(case)
+    mon = c03.Exactness()
+    c03.MON = mon
+    try:
+        occs = c03.occurrences(p, radii)
+        if occs is None:
+            stats["undefined"] += 1
+            return None
+        M0 = {}
+        for row, per_block in occs:
+            c03.occ_contrib(M0, p["n"], row, per_block, bool(kw.get("normalize_windows", True)))
+        M0.pop("maxden", None)
+        for v in M0.values():
+            mon.v32(v)
+    finally:
+        c03.MON = None
+    ntok = sum(len(d) if p["kind"] != "multi" else sum(len(ms) for ms in d) for d in p["docs"])
+    exact = not (p["kind"] == "timed" and any(b["kind"] != "flat" for b in p["blocks"])) and (n_iter <= 1 or ntok <= 24)
+    S, near = em_spec(M0, occs, p["n"], n_iter, eps, exact, mon)
+    # on such a trace the float computation is exact, so that even a value EQUAL to epsilon is judged
+    trace_exact = exact and mon.ok and f32_exact(kw.get("epsilon", 0))
+    got = {(r, c): v for r, c, v in triples}
     # consequences stated by the property (no tolerance games: float32 slack only)
     bad = [k for k, v in got.items() if not (-1e-6 <= v <= 1 + 1e-5)] if (n_iter > 0 or eps > 0) else []
     if bad:
-        ctx.report("entry %s = %r outside [0, 1]" % (bad[0], got[bad[0]]), {"stage": "oracle", "case": case, "actual": out["triples"]})
+        ctx.report("%s: entry %s = %r outside [0, 1]%s" % (what, bad[0], got[bad[0]], note), {"stage": "oracle", "case": case, "actual": triples})
         return None
     if n_iter > 0 or eps > 0:
         sums = {}
@@ -261,27 +385,37 @@ def judge_fit(ctx, case, res, model_val, stats):
             sums[c] = sums.get(c, 0.0) + v
         for c, sv in sums.items():
             if sv > 1 + 1e-4 or (eps == 0 and abs(sv - 1) > 1e-4):
-                ctx.report("column %d sums to %r (must be <= 1, = 1 for a non-empty column when epsilon = 0)" % (c, sv),
-                           {"stage": "oracle", "case": case, "actual": out["triples"]})
+                ctx.report("%s: column %d sums to %r (must be <= 1, = 1 for a non-empty column when epsilon = 0)%s" % (what, c, sv, note),
+                           {"stage": "oracle", "case": case, "actual": triples})
                 return None
     grown = [k for k in got if k not in M0]
     if grown:
-        ctx.report("support grew beyond the n_iter=0 matrix: cell %s" % (grown[0],), {"stage": "oracle", "case": case, "actual": out["triples"]})
+        ctx.report("%s: support grew beyond the n_iter=0 matrix: cell %s%s" % (what, grown[0], note), {"stage": "oracle", "case": case, "actual": triples})
         return None
-    if near:
+    if near and not trace_exact:
         stats["near_threshold"] += 1       # a float32 pruning decision within 2e-4 of epsilon: outcome not judged
         return None
     d = None
     for key in sorted(set(S) | set(got)):
-        e, g = float(S.get(key, 0)), got.get(key, 0.0)
-        if not close(e, g):
-            d = "cell %s: documented procedure gives %.9g, got %.9g" % (key, e, g)
+        e, g = S.get(key, 0), got.get(key, 0.0)
+        if trace_exact:
+            if F(g) != e:
+                d = "cell %s: documented procedure gives exactly %s, got %r" % (key, e, g)
+                break
+        elif not close(float(e), g):
+            d = "cell %s: documented procedure gives %.9g, got %.9g" % (key, float(e), g)
             break
+    if trace_exact:
+        stats["trace_exact"] += 1
+        if near:
+            stats["eps_boundary_judged"] += 1
+            if any(F(x) == eps for _, x in near):
+                stats["eps_equal_judged"] += 1
     if d is not None:
-        ctx.report("matrix differs from normalise -> threshold -> (EM step -> normalise -> threshold)^%d with epsilon=%s: %s"
-                   % (n_iter, float(eps), d),
+        ctx.report("%s: matrix differs from normalise -> threshold -> (EM step -> normalise -> threshold)^%d with epsilon=%r%s: %s%s"
+                   % (what, n_iter, float(eps), " (dyadic trace: exact comparison, entries equal to epsilon are kept)" if trace_exact else "", d, note),
                    {"stage": "oracle", "case": case, "expected": sorted([k[0], k[1], float(v)] for k, v in S.items()),
-                    "actual": out["triples"]})
+                    "actual": triples})
         return None
     stats["oracle_ok"] += 1
     if model_val is None:
@@ -353,7 +487,8 @@ def eval_model(ctx, exprs, idx, shard=12):
     return model, slow[0]
 
 
-STAT_KEYS = ["degenerate", "undefined", "near_threshold", "oracle_ok", "corr", "direct_ok", "direct_corr"]
+STAT_KEYS = ["degenerate", "undefined", "near_threshold", "oracle_ok", "corr", "direct_ok", "direct_corr", "with_past", "then_ok",
+             "trace_exact", "eps_boundary_judged", "eps_equal_judged"]
 
 
 def run(ctx, replay=None):
@@ -394,7 +529,7 @@ def run(ctx, replay=None):
     n_fit_model = 0
     for i, (c, r) in enumerate(zip(cases, impl)):
         if c["kind"] == "em_direct":
-            if replay or len([1 for j in idx if cases[j]["kind"] == "em_direct"]) < (150 if ctx.quick else 1500):
+            if replay or len([1 for j in idx if isinstance(j, int) and cases[j]["kind"] == "em_direct"]) < (150 if ctx.quick else 1500):
                 exprs.append(coq_direct_expr(c))
                 idx.append(i)
             continue
@@ -413,6 +548,11 @@ def run(ctx, replay=None):
         exprs.append(coq_pipeline_expr(p, radii, c))
         idx.append(i)
         n_fit_model += 1
+        if c.get("then") and "triples" in r["ok"].get("then", {}) and c["then"]["docs"] != "same":
+            q = c03.plan_then(c, p)
+            if sum(len(d) if q["kind"] != "multi" else sum(len(ms) for ms in d) for d in q["docs"]) <= 24:
+                exprs.append(coq_pipeline_expr(q, radii, c))
+                idx.append(("then", i))
     import time
     t_coq = time.time()
     model, n_slow = eval_model(ctx, exprs, idx)
@@ -451,16 +591,28 @@ def run(ctx, replay=None):
     stats = {k: 0 for k in STAT_KEYS}
     corr_bad = []
     for i, (c, r) in enumerate(zip(cases, impl)):
-        d = (judge_direct if c["kind"] == "em_direct" else judge_fit)(ctx, c, r, model.get(i), stats)
+        if c["kind"] == "em_direct":
+            d = judge_direct(ctx, c, r, model.get(i), stats)
+        else:
+            d = judge_fit(ctx, c, r, model.get(i), stats, model.get(("then", i)))
         if d is not None:
             corr_bad.append((c, d))
     for what, rep in mode_diffs[:3]:          # after the property-level reports
         ctx.report(what, rep)
-    ctx.coverage["rule"] = ("whole fit_transform (4 vectorizers) x n_iter 0-3 x epsilon {0,.05,.2,.5}: 45% corpora of increasing "
+    ctx.coverage["rule"] = ("whole fit_transform (4 vectorizers) x n_iter 0-3 x epsilon {0,.05,.2,.25,.5,1}: 30% corpora of increasing "
                             "token runs (a pruned largest-column cell that a later iteration looks up while the next row starts "
-                            "with that column), the rest random C03-style cases; em_update_matrix called directly on random CSR "
+                            "with that column); 25% disjoint-star corpora whose column-normalised values are dyadic (1, 1/2, 1/4, "
+                            "3/4, 1/8) with epsilon EQUAL to one of them or 2^-20 below/above it (radii 1, 2, len, len+1, 32768, "
+                            "2^31-1; judged exactly when every intermediate of the exact trace is float-representable); the rest "
+                            "random C03-style cases with boundary radii/offsets; 40% of all on an estimator with a past (fitted on "
+                            "another corpus and used for transform before), 25% followed by a transform judged by the same "
+                            "procedure; em_update_matrix called directly on random CSR "
                             "priors/windows/kernels (60% with the next row starting at an absent, larger column); "
                             "non-trivial = some document with >= 2 tokens / non-empty CSR; distinct by case hash")
+    ctx.coverage["call_histories"] = {"fits_on_an_estimator_with_a_past": stats["with_past"], "later_transforms_judged": stats["then_ok"]}
+    ctx.coverage["epsilon_boundary"] = {"matrices_compared_exactly_on_a_dyadic_trace": stats["trace_exact"],
+                                        "with_a_value_within_2e-4_of_epsilon": stats["eps_boundary_judged"],
+                                        "with_a_value_equal_to_epsilon": stats["eps_equal_judged"]}
     ctx.coverage["correspondence"] = {"pipeline_cases": stats["corr"], "em_update_cases": stats["direct_corr"],
                                       "disagreements": len(corr_bad),
                                       "model": "Model/K04_EM.v on Qc via vm_compute (pipeline over the K3 event list; em_update)"}
@@ -469,7 +621,11 @@ def run(ctx, replay=None):
                               "undefined_mean_gap_0": stats["undefined"]}
     ctx.coverage["traces_validated_against_impl"] = stats["corr"] + stats["direct_corr"]
     ctx.assumptions += ["float32 storage of the matrix (2e-5 relative + 1e-7 absolute); a pruning decision whose value is within "
-                        "2e-4 (relative) of epsilon is not judged (float32 vs exact comparison is discontinuous there)",
+                        "2e-4 (relative) of epsilon is not judged (float32 vs exact comparison is discontinuous there) UNLESS every "
+                        "intermediate value of the exact trace is a small dyadic rational (float64 kernel stage: denominators <= 2^20; "
+                        "float32 matrix stage: multiples of 2^-10 below 2^12) and epsilon is a float32: IEEE operations with "
+                        "representable results do not round, the matrix is then compared exactly and entries equal to epsilon must "
+                        "be kept",
                         "em_update_matrix direct calls use dyadic float64 inputs: 1e-9 relative",
                         "values are non-negative (kernels, mix weights, counts), so |x| = x in the L1 normalisation",
                         "n_threads = 1; dask chunking is C04's"]
